@@ -44,3 +44,27 @@ reg("C16", harness="c16_dispatch", level="model_checking", deadline=(120, 600), 
          "execution of a real <f>_dispatch_init under that assignment; invariants: executable, portable fallback, GFNI table/consumer pairing, "
          "no xgetbv without OSXSAVE; then each distinct 42-tuple of selections is materialised and the agreement battery (all public entries "
          "vs references) run. distinct_nontrivial = distinct resolution vectors materialised.")
+
+
+reg("C20", harness="c20_zero", level="exploration", deadline=(120, 900),
+    technique="bounded-exhaustive enumeration of (variant x length x placement/alignment x non-zero position x value) with guard pages",
+    level_text="Complete product over every ISA variant (5 direct symbols + the dispatcher under 6 simulated CPU levels), every length 0..600 "
+               "(thorough 0..1100), 65 placements, every position of a single non-zero byte with 3 (thorough: up to 255) values; the region is "
+               "flush against inaccessible pages so an out-of-range read faults, and neighbours are non-zero.",
+    level_note="the kernels are branch-free reductions over the region; lengths beyond N and multi-byte patterns are not enumerated",
+    runs=[dict(flavour="sim")],
+    rule="case = (implementation, len, placement); for each: all-zero must give 0, and a single non-zero byte at EVERY offset with each value "
+         "must give non-zero; distinct_nontrivial counts distinct (implementation, len) pairs completed; evaluations counts calls.")
+
+
+reg("C04", harness="c04_crc", level="exploration", deadline=(240, 1500),
+    technique="bounded-exhaustive enumeration (variant x length x alignment/placement x basis data x seeds x all split points) against bit-serial references",
+    level_text="Every checksum variant (48 direct kernel symbols + 14 dispatched entries under 7 simulated CPU levels) is run over every length "
+               "0..600 (thorough 0..2200), 65 guard-page placements/alignments, four designed data sets x four seeds, every unit impulse (each bit "
+               "of each byte, len<=160/300), every single-bit seed, every split point (len<=200/400) and the large all-FF lengths, each compared "
+               "with a bit-serial reference anchored to 10 published check values.",
+    level_note="CRCs are GF(2)-affine, Adler-32 affine mod 65521: the basis cases decide all data of those lengths only if the kernels have no "
+               "data-dependent control flow (assumed; dense data checked). Lengths beyond the sweep are covered only by the listed large cases.",
+    runs=[dict(flavour="sim")],
+    rule="case = (implementation, len, placement, data, seed) or (implementation, len, impulse position/bit) or (implementation, len, split); "
+         "distinct_nontrivial = distinct (implementation, len) pairs fully swept; evaluations = kernel calls compared with the reference.")
